@@ -73,6 +73,30 @@ def translate():
     step('lateral_boundary/Memmap.data_block_size', lambda: lm.assign_expr('lateral_boundary.readheader', 'data_block_size', 'lm_data_block_size',
                                                                            ['date_time_block_size', 'nspec', 'spc_lat_block_size'])[0])
     step('lateral_boundary/Memmap.date_time_block_size', lambda: lm.assign_expr('lateral_boundary.readheader', 'date_time_block_size', 'lm_date_time_block_size', [])[0])
+    # ---- lateral_boundary/Memmap.py: class-level header dtypes, the dtypes and block arithmetic of __readheader
+    for t in ['emiss_hdr_fmt', 'grid_hdr_fmt', 'cell_hdr_fmt', 'time_hdr_fmt', 'spc_fmt']:
+        step('lateral_boundary/Memmap.__' + t, lambda t=t: lm.dtype_literal('lateral_boundary', t, 'lm_' + t))
+    step('lateral_boundary/Memmap.__readheader.__bound_fmt',
+         lambda: lm.dtype_literal('lateral_boundary.readheader', 'bound_fmt', 'lm_bound_fmt', ['bdim']))
+    step('lateral_boundary/Memmap.__readheader.date_time_fmt',
+         lambda: lm.dtype_literal('lateral_boundary.readheader', 'date_time_fmt', 'lm_date_time_fmt'))
+    step('lateral_boundary/Memmap.__readheader.spc_we_fmt',
+         lambda: lm.dtype_literal('lateral_boundary.readheader', 'spc_we_fmt', 'lm_spc_we_fmt', ['ny', 'nz']))
+    step('lateral_boundary/Memmap.__readheader.spc_sn_fmt',
+         lambda: lm.dtype_literal('lateral_boundary.readheader', 'spc_sn_fmt', 'lm_spc_sn_fmt', ['nx', 'nz']))
+    step('lateral_boundary/Memmap.__readheader.spc_lat_block_size',
+         lambda: lm.assign_expr('lateral_boundary.readheader', 'spc_lat_block_size', 'lm_spc_lat_block_size', ['spc_lat_fmt_itemsize'])[0])
+    # ntimes = float(size - offset) // 4. // data_block_size : FLOOR division (exact in binary64 while size < 2^53)
+    step('lateral_boundary/Memmap.__readheader.ntimes',
+         lambda: lm.assign_expr('lateral_boundary.readheader', 'ntimes', 'lm_ntimes', ['size', 'offset', 'data_block_size'])[0])
+    # ---- lateral_boundary/Write.py layouts, pads, two-digit-year expression
+    for t in ['_emiss_hdr_fmt', '_grid_hdr_fmt', '_cell_hdr_fmt', '_time_hdr_fmt', '_spc_fmt']:
+        step('lateral_boundary/Write.' + t, lambda t=t: lw.dtype_literal('', t, 'lw' + t))
+    step("lateral_boundary/Write.spc_hdr['SPAD1']",
+         lambda: lw.assign_expr('ncf2lateral_boundary', "spc_hdr['SPAD1']", 'lw_spc_pad', ['nspec'])[0])
+    step("lateral_boundary/Write.time_hdr['SPAD']",
+         lambda: lw.assign_expr('ncf2lateral_boundary', "time_hdr['SPAD']", 'lw_time_pad', [])[0])
+    step('lateral_boundary/Write.date', lambda: lw.assign_expr('ncf2lateral_boundary', 'date', 'lw_date2', ['date'], index=0)[0])
     text = ''.join(out)
     P.write_if_changed(os.path.join(C.COQ, 'Gen', 'Camx.v'), text)
     return res
